@@ -378,6 +378,18 @@ def run_api(ctx):
                 ctx.count(key=('udfenc', a, order[0] == a), kind='api:udf-encoding')
                 if res == ['ok', 'ok']:
                     udf_encoding_lookup(ctx, cfg, ops, order)
+        # entries a user puts below the relocation directory obey the uniqueness rule like any other (only relocated
+        # directories themselves may share an identifier there)
+        for ver in ('1.09', '1.12'):
+            cfg = {'ilevel': 3, 'joliet': None, 'rr': ver, 'udf': None, 'xa': False}
+            deep, p_ = [], ''
+            for i in range(8):
+                p_ += '/D%d' % i
+                deep.append({'op': 'adddir', 'iso': p_, 'rr': 'd%d' % i})
+            scenario(ctx, tmpdir, cfg, deep + [{'op': 'addfp', 'cid': 1, 'n': 3, 'iso': '/RR_MOVED/FOO.;1', 'rr': 'foo'},
+                                              {'op': 'addfp', 'cid': 2, 'n': 4, 'iso': '/RR_MOVED/FOO.;1', 'rr': 'foo2'}], 'dup-in-relocation-dir-file:%s' % ver)
+            scenario(ctx, tmpdir, cfg, deep + [{'op': 'adddir', 'iso': '/RR_MOVED/D7', 'rr': 'd7x'}], 'dup-in-relocation-dir-dir:%s' % ver)
+            ctx.count(key=('dup-reloc', ver), kind='api:dup-in-relocation-dir')
         # depth rule
         for lvl, rr, depth in ((1, None, 7), (1, None, 8), (3, None, 8), (4, None, 9), (1, '1.09', 9)):
             cfg = {'ilevel': lvl, 'joliet': None, 'rr': rr, 'udf': None, 'xa': False}
